@@ -51,10 +51,22 @@ Errors(r) ==
                 /\ ("busy_forever" \notin DOMAIN c \/ ~c.busy_forever)
              THEN {<<"SpuriousFailure", r.result, k>>} ELSE {})
 
+\* EepromRange::write with arbitrary payloads (through the hook, over an in-memory device)
+RangeErrors(r) ==
+    LET c == r.case
+        want == RangeWriteWords(c.window[1], c.window[2], c.payload)
+        got == [i \in 1..Len(r.writes) |-> <<r.writes[i][1], r.writes[i][2], r.writes[i][3]>>]
+    IN IF r.result \in {"panic", "hang", "budget", "pending"} THEN {<<"NotTotal", r.result>>}
+       ELSE IF r.result # "ok" THEN {<<"RangeWriteFailed", r.result>>}
+       ELSE (IF got # want THEN {<<"RangeWriteWords", ToString(got), ToString(want)>>} ELSE {})
+            \cup (IF r.written # RangeWriteCount(c.window[1], c.window[2], c.payload)
+                  THEN {<<"RangeWriteCount", r.written, RangeWriteCount(c.window[1], c.window[2], c.payload)>>} ELSE {})
+
 TInit == l = 1
 TNext ==
     /\ l <= Len(Rec)
-    /\ LET e == IF Rec[l].case.op = "alias" THEN Errors(Rec[l]) ELSE {} IN
+    /\ LET e == IF Rec[l].case.op = "alias" THEN Errors(Rec[l])
+                ELSE IF Rec[l].case.op = "rangewrite" THEN RangeErrors(Rec[l]) ELSE {} IN
        e # {} => /\ PrintT(ToJson([kind |-> "VIOL", case |-> Rec[l].case.id, errs |-> ToString(e)]))
                  /\ TLCSet(3, TLCGet(3) + 1)
     /\ l' = l + 1
